@@ -317,8 +317,8 @@ def r2(rep, prog):
         okc = False
         for r in refs:
             cb = prog.body(r)
-            if cb and any(t.get("f") == SU + "SegmentUpdater::list_files" for _, t in cb.calls()):
-                okc = True
+            if cb and calls_to(prog, cb, {SU + "SegmentUpdater::list_files"}):
+                okc = True      # (calls_to also recognises list_files written into the closure itself)
         rep.check(okc, R, "garbage_collect_files passes SegmentUpdater::list_files as the living set", "closure calls list_files",
                   "the closure given to garbage_collect no longer calls SegmentUpdater::list_files", site=gb.span)
     # at every call site of ManagedDirectory::garbage_collect the closure must *compute* the living
@@ -563,7 +563,8 @@ def r7(rep, prog):
             if not on_managed:
                 continue
             name = f.split("::")[-1]
-            if name in ("contains", "iter", "into_iter", "len", "is_empty", "get", "difference", "intersection", "clone", "deref", "serialize", "fmt"):
+            if name in ("contains", "iter", "into_iter", "len", "is_empty", "get", "difference", "intersection", "clone", "deref", "serialize", "fmt",
+                        "to_vec", "to_vec_pretty", "to_writer", "to_writer_pretty", "to_string", "to_string_pretty"):
                 continue
             if name == "remove":
                 lv = provenance(body, op_local(t["args"][1]), extra_transparent=tuple(prog.names(r"Iterator::next$|IntoIterator::into_iter$|<impl \[T\]>::iter$|Vec::<T, A>::as_slice$|Deref::deref$|HashSet::<T, S(, A)?>::iter$")))
